@@ -16,7 +16,7 @@ TRUSTED_BASE = [
     "axioms allowed in property theorems: propext, Classical.choice, Quot.sound (audited by #print axioms on every run)",
     "tools/go2lean: translator of the leaf functions/constants/decision code (Generated/Leaf.lean is regenerated on every run)",
     "tools/gofacts: extractor of synchronisation skeletons and structural facts (Generated/Facts.lean)",
-    "tools/go2deep + Deep/Interp.lean: printer of the go/ast of the cache-layer method bodies (Generated/Deep.lean, regenerated on every run) and the definitional interpreter that gives the Go subset its meaning (closures capturing by reference, named results, evaluation order, type assertions); Proofs/DeepCache*.lean prove interpreter(generated syntax) = hand-written M2 for every state and call",
+    "tools/go2deep + Deep/Interp.lean: printer of the go/ast of the cache-layer method bodies (Generated/Deep.lean, regenerated on every run) and the definitional interpreter that gives the Go subset its meaning (closures capturing by reference, named results, evaluation order, type assertions); Proofs/DeepCache*.lean prove interpreter(generated syntax) = hand-written M2 for every state and call; go2deep -ctor prints the goroutine and the finalizer of the two constructors (Generated/DeepCtor.lean; meaning: Deep/Janitor.lean) and go2deep -wrappers what the writing methods of Map / MapOf pass to doCompute (Generated/Wrappers.lean; meaning: Deep/Wrapper.lean)",
     "tools/rewrite + harness/vshim: build-time selector substitution (virtual clock, cooperative scheduler) through go build -overlay",
     "hand-written models (modelled, not verified): cache-layer method bodies, doCompute/Load/resize/Range/copyBucket/appendToBucket, constructor plumbing; validated only by the correspondence runs counted below",
     "Go compiler/runtime, sync/atomic sequential consistency, monotone clock, pure total user functions",
